@@ -174,6 +174,57 @@ func fullBytesSX(e error) SX {
 	return Str(string(b))
 }
 
+// allBytesSX: the protobuf bytes of the whole EncodedError, nested EncodedError payloads included;
+// (skip) when some payload, at any nesting level, is neither a flat payload message of the library
+// nor a nested EncodedError (a gRPC status, a foreign message).
+func allBytesSX(e error) SX {
+	enc := errors.EncodeError(bgCtx, e)
+	known := map[string]bool{}
+	for _, k := range []string{"cockroach.errorspb.StringPayload", "cockroach.errorspb.StringsPayload", "cockroach.errorspb.ErrnoPayload",
+		"cockroach.errorspb.MarkPayload", "cockroach.errorspb.TagsPayload", "cockroach.errorspb.TestError",
+		"cockroach.errors.exthttp.EncodedHTTPCode", "cockroach.errors.extgrpc.EncodedGrpcCode"} {
+		known["type.googleapis.com/"+k] = true
+	}
+	ok := true
+	var walk func(x *errorspb.EncodedError)
+	chk := func(d *errorspb.EncodedErrorDetails) {
+		a := d.FullDetails
+		if a == nil || known[a.TypeUrl] {
+			return
+		}
+		if a.TypeUrl == "type.googleapis.com/cockroach.errorspb.EncodedError" {
+			var inner errorspb.EncodedError
+			if err := inner.Unmarshal(a.Value); err != nil {
+				ok = false
+				return
+			}
+			walk(&inner)
+			return
+		}
+		ok = false
+	}
+	walk = func(x *errorspb.EncodedError) {
+		if l := x.GetLeaf(); l != nil {
+			chk(&l.Details)
+			for i := range l.MultierrorCauses {
+				walk(l.MultierrorCauses[i])
+			}
+		} else if w := x.GetWrapper(); w != nil {
+			chk(&w.Details)
+			walk(&w.Cause)
+		}
+	}
+	walk(&enc)
+	if !ok {
+		return L(Sym("skip"))
+	}
+	b, err := enc.Marshal()
+	if err != nil {
+		return Sym("marshal-error")
+	}
+	return Str(string(b))
+}
+
 func isSX(e error, refs []error) SX {
 	out := make([]SX, len(refs))
 	for i, r := range refs {
@@ -304,6 +355,7 @@ func obsCase(e error, refs []error) SX {
 		L(Sym("detbytes"), optSX(func() SX { return detBytesSX(e) })),
 		L(Sym("wirebytes"), optSX(func() SX { return wireBytesSX(e) })),
 		L(Sym("paybytes"), optSX(func() SX { return payBytesSX(e) })),
+		L(Sym("allbytes"), optSX(func() SX { return allBytesSX(e) })),
 		L(Sym("fullbytes"), optSX(func() SX { return fullBytesSX(e) })),
 		L(Sym("h1tree"), onHop(h1, ok1, treeSX)),
 		L(Sym("h1enc"), onHop(h1, ok1, encSX)),
